@@ -58,7 +58,7 @@ CHECKS["C17"] = dict(cat="model_checking", technique="explicit-state BFS over le
 CHECKS["C09"] = dict(cat="exploration", technique="exhaustive grammar enumeration of macro definitions / invocations / #if expressions, c2m -E against gcc -E compared as pp-token sequences",
              text="Every replacement list of up to 3 (thorough 4) tokens over {x,y,#x,#y,##,x##y,A,B,F,G,(,),comma,1,+,__VA_ARGS__} in several macro environments (self reference, mutual recursion, function-like names without call, pasting) with fixed invocations, every parenthesis-balanced invocation of up to 5 (6) tokens against 27 fixed bodies, every #if expression of depth 2 plus reduced depth 3 over all preprocessor operators and boundary leaves, and conditional nests are preprocessed by the real c2m binary and by gcc; token sequences must agree.",
              note="cases on which gcc -std=c11 -pedantic -Wall -Wextra prints any diagnostic, #if expressions with undefined intmax_t behaviour (gen/ppeval.py) and two C11-undefined paste forms are dropped; tokens that c2m -E prints without a separating blank are not judged; #include/#pragma outside the grammar", ref="§3 C09")
-CHECKS["C08"] = dict(cat="exploration", technique="exhaustive enumeration of struct/union declarations (<=2, thorough <=3 members over a 23-member alphabet) and of by-value passing positions, c2m against gcc",
+CHECKS["C08"] = dict(cat="exploration", technique="exhaustive enumeration of struct/union declarations (<=2, thorough <=3 members over a 30-member alphabet) and of by-value passing positions, c2m against gcc",
              text="For every struct and union with up to 2 (thorough 3) members over scalars, arrays, bit-fields of eight widths incl. three zero-width forms, nested and anonymous aggregates, the c2m-compiled program must print the same sizeof, _Alignof, offsetof of every addressable member and byte image of every bit-field as the gcc-built one; "
                   "every such type of at most 32 bytes is returned from gcc code, passed to gcc code as first argument and behind 5/6 integer and 7/8 double arguments, and passed to / returned from a c2mir callback called by gcc code, under c2m -ei and -eg, with member-wise checks on both sides.",
              note="gcc 12 on this machine is the ABI reference (including its treatment of zero-width bit-fields); three-member types with bit-fields are checked for layout only; #pragma pack and attributes are not generated", ref="§3 C08")
@@ -73,10 +73,19 @@ CHECKS["C20"] = dict(cat="exploration", technique="exhaustive enumeration of MIR
                   "must equal those of MIR_interp on every input of the program's grid (quick: gcc -O1; thorough: -O0 and -O2).",
              note="gcc -fwrapv -fno-strict-aliasing is the C compiler; (program,input) pairs with behaviour MIR.md leaves unspecified are skipped via refinterp; multiple-result functions, expr data, lref data and calls passing blocks to native C functions are outside the enumerated families", ref="§3 C20")
 CHECKS["C03"] = dict(cat="exploration", technique="exhaustive enumeration of (two-module program, entry-call history) pairs, each history replayed in fresh contexts under all five execution interfaces and compared with MIR_interp",
-             text="For every program of 6 edge kinds (direct call, call through a register, through an address stored in a data item, native callback re-entering MIR code, inline, call in a loop) x 6 target kinds (leaf, self recursion, mutual recursion across modules, label address + jmpi, "
-                  "switch + loop, native call + callback) x 5 signatures (1 int; ints and doubles in registers; stack arguments; narrow ints + float; variadic) and every sequence of up to 4 (thorough 5) calls over its 3 entry points, the history executed through MIR_interp, the interpreter C interface, "
+             text="For every program of 6 edge kinds (direct call, call through a register, through an address stored in a data item, native callback re-entering MIR code, inline, call in a loop) x 8 target kinds (leaf, self recursion, mutual recursion across modules, label address + jmpi, "
+                  "switch + loop, native call + callback, all fp branches in a loop, all integer branches in a loop) x 8 signatures (1 int; ints and doubles in registers; stack arguments; narrow ints + float; variadic; blocks in the last integer / vector argument registers) and every sequence of up to 4 (thorough 5) calls over its 3 entry points, the history executed through MIR_interp, the interpreter C interface, "
                   "eager, lazy and lazy basic-block generation (-O0 and -O2; thorough -O0..-O3) must yield the same return values, state data item and native-call log; entry addresses are taken once after linking and used for every later call.",
              note="MIR_interp is the reference side of the comparison; programs stay inside the enumerated alphabet and do not use property insns", ref="§3 C03")
+CHECKS["C05"] = dict(cat="exploration", technique="exhaustive enumeration of an index-enumerated prototype space; MIR code calls a gcc-compiled callee generated from the same prototype under the interpreter and every generator level",
+             text="For every prototype of the space (argument lists of length <= 3 over 19 kinds incl. all integer widths, f, d, ld and seven block classes/sizes; saturation sweeps 0..8 ints x 0..10 doubles x 3 orderings followed by every kind; every result type and the four two-register result pairs; "
+                  "variadic tails of length <= 3 over {i64, d, ld, blk0, blk1, blk2} behind 4 fixed parts; return blocks) the native callee must record exactly the argument values the prototype describes, see an ABI-aligned stack, and MIR code must receive the canned results correctly extended, "
+                  "under MIR_interp (ff-call trampolines) and gen -O0..-O3.",
+             note="argument values are fixed per position and kind; gcc -O1 is the ABI reference; x86-64 SysV only", ref="§3 C05")
+CHECKS["C06"] = dict(cat="exploration", technique="exhaustive enumeration of the same prototype space x 2 callee bodies; a gcc-compiled caller invokes the MIR function through a transparent register-checking assembly thunk under six interfaces",
+             text="For every prototype of the C05 space and two bodies (plain; 14 values live across a native call plus an alloca block) the MIR function must record exactly the parameter values the gcc-compiled caller passed (including variadic tails read with va_arg/va_block_arg and return blocks), "
+                  "return the canned results, and leave rbx, rbp, r12-r15, rsp, the MXCSR control bits and the x87 control word as they were, under the interpreter C interface, gen -O0..-O3 and lazy generation; alloca memory must be 16-byte aligned and keep its contents across the call.",
+             note="the thunk is not re-entrant: the MIR function's own native calls do not go through it; values are fixed per position and kind", ref="§3 C06")
 NOT_YET = {}
 def main():
     props = [json.loads(l) for l in open(os.path.join(VERIF, "properties.jsonl"))]
